@@ -1452,7 +1452,7 @@ func (w *c08World) Do(a string) (err error) {
 		// the terminal drain's long sleep (past the switch's 10/15 s tickers); recorded
 		// in the history so that a replay reproduces the same virtual time line. With
 		// LongIdle the same pause is also a schedule deviation in the middle of an execution.
-		if w.pending() != 0 {
+		if w.deliverable() != 0 {
 			return fmt.Errorf("event L with messages in flight")
 		}
 		if !w.draining && w.scn.LongIdle {
@@ -1655,6 +1655,29 @@ func (w *c08World) Do(a string) (err error) {
 			}
 		}
 		w.lastParts = parts
+		if os.Getenv("VERIF_C08_PKGS") != "" {
+			for _, e := range []int{1, 2} {
+				pk, err := w.chans[e].LoadFwdPkgs()
+				if err != nil {
+					continue
+				}
+				for _, p := range pk {
+					bits := func(f *channeldb.PkgFilter, n int) string {
+						var b strings.Builder
+						for i := 0; i < n; i++ {
+							if f.Contains(uint16(i)) {
+								b.WriteByte('1')
+							} else {
+								b.WriteByte('0')
+							}
+						}
+						return b.String()
+					}
+					w.logf("              pkg %s h%d state=%d adds=%d ack=%s fwd=%s sf=%d sff=%s", c08EndName[e], p.Height, p.State, len(p.Adds),
+						bits(p.AckFilter, len(p.Adds)), bits(p.FwdFilter, len(p.Adds)), len(p.SettleFails), bits(p.SettleFailFilter, len(p.SettleFails)))
+				}
+			}
+		}
 	}
 	if f := w.tb.failures(); len(f) > 0 && w.dead == "" {
 		w.dead = "fixture failure: " + strings.Join(f, "; ")
